@@ -60,6 +60,7 @@ VOID_PARAMS = {n: ps for n, _, ps in VOID_CALLS}
 XCALLS = [("get_usr_field", 2, [], (False, 32)), ("get_npc", 1, [], (False, 32)),
           ("fcirc_add", 2, [(True, 32), (True, 32), (True, 32)], (True, 32))]
 XCALL_SIGS = {n: (k, ps, rt) for n, k, ps, rt in XCALLS}
+USER_CALL_PARAMS = {}    # sub-routines a check registers through the public API: name -> parameter types
 # plugin macros all of whose arguments are pass-through tokens: name -> (number of tokens, return type)
 XMACROS = {"get_corresponding_CS": (2, (True, 32))}
 
@@ -342,7 +343,7 @@ def expr_features(e, out: set, ctx="value"):
                     out.add("signed_widen_to_unsigned")
         out.discard("_bare_stmtexpr_guard")
     elif k in ("macro", "call"):
-        params = MACRO_PARAMS.get(e[1]) or dict((c[0], c[1]) for c in CALLS).get(e[1])
+        params = MACRO_PARAMS.get(e[1]) or dict((c[0], c[1]) for c in CALLS).get(e[1]) or USER_CALL_PARAMS.get(e[1])
         for a, pt in zip(e[2], params):
             expr_features(a, out)
             if _conv_risky(ctype(a), pt):
